@@ -401,6 +401,37 @@ func init() {
 			n := ex.i64(int64(len(parts)))
 			return Slice{Arr: arr, Off: ex.i64(0), Len: n, Cap: n}
 		},
+		"bytes.Equal": func(ex *Exec, g *Goroutine, cs *callSite, args []Value) Value {
+			a, b := args[0].(Slice), args[1].(Slice)
+			la, lb := a.lenOr0(ex), b.lenOr0(ex)
+			if _, ok := ex.constOf(la); ok {
+				if _, ok2 := ex.constOf(lb); ok2 {
+					return ex.eqBytes(ex.sliceTerms(a), ex.sliceTerms(b))
+				}
+			}
+			// symbolic lengths: equal length and equal at a fresh witness index is not
+			// expressible as a term; compare lengths and fork on content at a witness
+			panic(unsupported("bytes.Equal on slices of symbolic length"))
+		},
+		"strings.Contains": func(ex *Exec, g *Goroutine, cs *callSite, args []Value) Value {
+			a, ok1 := args[0].(string)
+			b, ok2 := args[1].(string)
+			if !ok1 || !ok2 {
+				panic(unsupported("strings.Contains on symbolic strings"))
+			}
+			return ex.C.Bool(strings.Contains(a, b))
+		},
+		"strings.Index": func(ex *Exec, g *Goroutine, cs *callSite, args []Value) Value {
+			a, ok1 := args[0].(string)
+			b, ok2 := args[1].(string)
+			if !ok1 || !ok2 {
+				panic(unsupported("strings.Index on symbolic strings"))
+			}
+			return ex.i64(int64(strings.Index(a, b)))
+		},
+		"google.golang.org/grpc/status.FromError": func(ex *Exec, g *Goroutine, cs *callSite, args []Value) Value {
+			return Tuple{Ptr{}, ex.C.False()}
+		},
 		"hash/crc32.MakeTable": func(ex *Exec, g *Goroutine, cs *callSite, args []Value) Value {
 			return Ptr{Tag: &Opaque{Kind: "crc32table"}}
 		},
